@@ -184,16 +184,19 @@ Proof. vm_compute. split; reflexivity. Qed.
 (* UNBOUNDED.  For EVERY design tree (any number of modules at any depth, statements, domains, signals, widths, target
    forms incl. part-selects / Cat / arrays of different widths, any number of Instance / read-port / buffer outputs and
    ports) that is well-formed —
-     targets are ones the API can build (wf_tgt_top: slices inside their operand, stride >= 1, array / choice elements no
-       wider than the array value);
+     targets are ones the API can build (wf_tgt_top: slices inside their operand — EMPTY slices s[1:1] included —, stride
+       >= 1, array / choice elements no wider than the array value);
      every signal has ONE width W s, in all targets and ports;
-     every driver the emitter creates covers at least one bit (this excludes exactly C06_zero_width_refuted);
      every signal is a port at most once —
    the whole-design check as modelled (walk with preorder module indices, per-(module, domain) drivers, outputs connected
    at once, emit_drivers with its `len(sig_drivers) == 1` shortcut and per-bit driven_bits, connect(), emit_top_ports)
    raises DriverConflict IF AND ONLY IF some signal bit has two different sources: two different (module, domain) pairs
    that may address it for some selector value, logic and an instance / memory / buffer output, two outputs, or any of
    these and an Input port.  Both directions: no false negative, no false positive for bit-disjoint drivers.
+   The former hypothesis "every driver the emitter creates covers at least one bit" is gone: since the repo fix of
+   C06-zero-width-driver-vs-input-port the single-driver shortcut of emit_drivers requires the driver to assign at least
+   one bit (`any(len(assign.value) for assign in driver.assignments)`), so a bit-less driver (s[1:1].eq(0)) is no source
+   of any bit in the code as in the spec (d3 in the Example: formerly DriverConflict on bit 0 against the Input port).
    That emit_assign's records stay inside their signal (the IndexError of C06-choice-target-overhang-indexerror, repaired
    by repo 961f42e) is no longer assumed: it is NirP.emit_assign_bounds, proved for the repaired SwitchValue branch. *)
 Theorem C06_driver_check_iff : forall W d, wf_design W d -> (driver_table d <> None <-> conflict d).
@@ -207,8 +210,11 @@ Example C06_driver_check_iff_ex :
                    [(4, 1, PIn); (3, 1, PNone)] in
   let d2 := Design (FMod [(0, TSlice (TSig 0 4) 0 2)] [FMod [(1, TSlice (TSig 0 4) 2 3)] [FOut [TSlice (TSig 0 4) 3 4]]])
                    [(1, 2, PIn)] in
+  let d3 := Design (FMod [(1, TSlice (TSig 0 4) 1 1)] [FMod [(0, TCat [TSlice (TSig 0 4) 2 2; TSlice (TSig 1 2) 0 0])] []])
+                   [(0, 4, PIn); (1, 2, PNone)] in
   wf_designb W d1 = true /\ driver_table d1 = Some (ErrDomain 0 0)
-  /\ wf_designb W d2 = true /\ driver_table d2 = None.
+  /\ wf_designb W d2 = true /\ driver_table d2 = None
+  /\ wf_designb W d3 = true /\ driver_table d3 = None.
 Proof. vm_compute. repeat split. Qed.
 Example C06_driver_check_iff_wf : forall W d, wf_designb W d = true -> wf_design W d.
 Proof. exact wf_designb_sound. Qed.
@@ -293,13 +299,16 @@ Example C06_early_check_complete_ex :
   /\ forallb (fun b => negb (may_driveb (TPart (TSig 0 8) 1 2 2) 0 b && may_driveb (TSlice (TSig 0 8) 4 8) 0 b)) (seq 0 8) = true.
 Proof. vm_compute. repeat split. Qed.
 
-(* marginal: a zero-width target creates a bit-less sole driver, which emit_drivers widens to the whole
-   signal; with the signal declared an Input port this is a DriverConflict although no bit has two sources *)
-Theorem C06_zero_width_refuted :
+(* marginal, now covered by C06_driver_check_iff: a zero-width target creates a bit-less sole driver; emit_drivers no
+   longer widens it to the whole signal (repo fix of C06-zero-width-driver-vs-input-port), so the signal can be an Input
+   port (formerly DriverConflict "Bit 0 ... has multiple drivers" although no bit has two sources); a sole driver of ONE
+   bit is still widened, and collides with the Input port — rightly, bit 1 has two sources — with connect() naming bit 0 *)
+Theorem C06_zero_width_accepted :
   let d := Design (FMod [(0, TSlice (TSig 0 4) 1 1)] []) [(0, 4, PIn)] in
-  driver_table d = Some (ErrConnect 0 0) /\ conflictb d = false.
-Proof. exact zero_width_refuted. Qed.
-Print Assumptions C06_zero_width_refuted.
+  let d1 := Design (FMod [(0, TSlice (TSig 0 4) 1 2)] []) [(0, 4, PIn)] in
+  driver_table d = None /\ conflictb d = false /\ driver_table d1 = Some (ErrConnect 0 0) /\ conflictb d1 = true.
+Proof. exact zero_width_accepted. Qed.
+Print Assumptions C06_zero_width_accepted.
 
 (* ---------------------------------------------------------------- regenerated from the source (translator unit "nir") *)
 (* Gen/NirGen.v is regenerated from the current text of /repo/amaranth/hdl/_nir.py on every run (class Net, every
